@@ -75,6 +75,9 @@ set_option maxRecDepth 100000 in
 /-- Every `return` / `break` of the choreography functions sits under the conditions the model assumes. -/
 theorem exits_match : Generated.exits = expectedExits := by decide
 
+/-- The stop flags are published before the stop is broadcast to the scanner. -/
+theorem stop_flags_before_broadcast : Generated.stopGoroutine = expectedStopGoroutine := by decide
+
 set_option maxRecDepth 100000 in
 theorem stop_checks_match : Generated.stopChecks = expectedStopChecks := by decide
 
